@@ -524,7 +524,7 @@ class NxMixedGraph:
         """
         vertices = _ensure_set(vertices)
         return self.from_edges(
-            nodes=vertices,
+            nodes=self.nodes(),
             directed=_exclude_target(self.directed, vertices),
             undirected=_exclude_adjacent(self.undirected, vertices),
         )
